@@ -140,7 +140,151 @@ func checkGlobBase(c *Ctx, r *Report) {
 	}
 	r.Count("computed_prefix_tests", np)
 	checkFixture(c, r, []string{"bare-prefix"})
+	checkCutsets(c, r, fns)
+	checkRootedClean(c, r)
 }
+
+// checkCutsets (G-cutset): strings.Trim/TrimLeft/TrimRight take a *set* of
+// characters. A constant cutset of several characters that contains a path
+// character ("./") strips every leading '.' and '/' - "/.cache/x" becomes
+// "cache/x" and collides with "/cache/x" - where a prefix was meant.
+func checkCutsets(c *Ctx, r *Report, fns []*ssa.Function) {
+	n := 0
+	perFn := map[string]int{}
+	for _, fn := range fns {
+		forEachInstr(fn, func(in ssa.Instruction) {
+			call, ok := in.(*ssa.Call)
+			if !ok {
+				return
+			}
+			o := calleeObj(call)
+			if o == nil {
+				return
+			}
+			switch qualifiedName(o) {
+			case "strings.Trim", "strings.TrimLeft", "strings.TrimRight":
+			default:
+				return
+			}
+			k, ok := call.Call.Args[1].(*ssa.Const)
+			if !ok {
+				return
+			}
+			cut := constOrEmpty(k)
+			n++
+			fk := c.funcKey(fn)
+			perFn[fk]++
+			bad := len(cut) > 1 && strings.ContainsAny(cut, "./\\")
+			r.Check(!bad, "G-cutset", fmt.Sprintf("%s: %s#%d cutset", fk, calleeName(call), perFn[fk]), c.instrPos(call),
+				fmt.Sprintf("cutset %q: a multi-character cutset with path characters strips all of them, not a prefix/suffix (\"/.cache\" and \"/cache\" get the same name)", cut))
+		})
+	}
+	r.Floor("G-cutset", n, 2)
+}
+
+// checkRootedClean (G-rooted): the absolute-path normalisers anchor the path
+// at "/" *before* it is cleaned (filepath.Join("/", p), Clean("/"+p)), so
+// that ".." components cannot climb above the root; cleaning first and
+// prepending "/" afterwards leaves "/../etc/x". Every return of
+// files.NormalizeAbsolute* must be such a rooted-then-cleaned value, possibly
+// with a suffix appended.
+func checkRootedClean(c *Ctx, r *Report) {
+	n := 0
+	for _, fn := range c.ModFuncs {
+		if c.funcPkgPath(fn) != filesPath || fn.Object() == nil || !fn.Object().Exported() || !strings.HasPrefix(fn.Name(), "NormalizeAbsolute") {
+			continue
+		}
+		n++
+		ok := true
+		why := "every return is cleaned after being anchored at the root"
+		for _, b := range fn.Blocks {
+			ret, isRet := b.Instrs[len(b.Instrs)-1].(*ssa.Return)
+			if !isRet {
+				continue
+			}
+			for _, res := range retResults(ret) {
+				if !cleanedRooted(c, res, map[*ssa.Parameter]bool{}, 0) {
+					ok = false
+					why = fmt.Sprintf("the value returned at %s (%s) is not cleaned after being anchored at \"/\": a destination with leading \"..\" components would stay above the root (\"/../etc/x\") and neither collide with \"/etc/x\" nor get its real parents", c.instrPos(ret), shorten(valueExpr(c, res, 0), 100))
+				}
+			}
+		}
+		r.Check(ok, "G-rooted", "files."+fn.Name()+" anchors at the root before cleaning", c.pos(fn.Pos()), why)
+	}
+	r.Floor("G-rooted", n, 2)
+}
+
+func isRootedInput(c *Ctx, v ssa.Value, env map[*ssa.Parameter]bool, d int) bool {
+	switch x := v.(type) {
+	case *ssa.Const:
+		return strings.HasPrefix(constOrEmpty(x), "/")
+	case *ssa.BinOp:
+		if x.Op == token.ADD {
+			return isRootedInput(c, x.X, env, d+1)
+		}
+	}
+	return cleanedRooted(c, v, env, d)
+}
+
+func cleanedRooted(c *Ctx, v ssa.Value, env map[*ssa.Parameter]bool, d int) bool {
+	if d > 10 || v == nil {
+		return false
+	}
+	switch x := v.(type) {
+	case *ssa.Const:
+		return constOrEmpty(x) == "/"
+	case *ssa.Parameter:
+		return env[x]
+	case *ssa.Phi:
+		for _, e := range x.Edges {
+			if !cleanedRooted(c, e, env, d+1) {
+				return false
+			}
+		}
+		return len(x.Edges) > 0
+	case *ssa.BinOp:
+		// a suffix appended to a cleaned, rooted path
+		return x.Op == token.ADD && cleanedRooted(c, x.X, env, d+1)
+	case *ssa.Call:
+		o := calleeObj(x)
+		if o == nil {
+			return false
+		}
+		switch qualifiedName(o) {
+		case "path/filepath.Join", "path.Join":
+			elems := variadicElems(x.Call.Args[0])
+			return len(elems) > 0 && isRootedInput(c, elems[0], env, d+1)
+		case "path/filepath.Clean", "path.Clean":
+			return isRootedInput(c, x.Call.Args[0], env, d+1)
+		case "path/filepath.ToSlash", "path/filepath.FromSlash", "strings.TrimSuffix", "strings.TrimRight":
+			return cleanedRooted(c, x.Call.Args[0], env, d+1)
+		}
+		sc := x.Call.StaticCallee()
+		if sc == nil || sc.Blocks == nil || !c.isModuleFunc(sc) {
+			return false
+		}
+		env2 := map[*ssa.Parameter]bool{}
+		for i, p := range sc.Params {
+			if i < len(x.Call.Args) {
+				env2[p] = isRootedInput(c, x.Call.Args[i], env, d+1)
+			}
+		}
+		any := false
+		for _, b := range sc.Blocks {
+			if ret, ok := b.Instrs[len(b.Instrs)-1].(*ssa.Return); ok {
+				for _, res := range retResults(ret) {
+					any = true
+					if !cleanedRooted(c, res, env2, d+1) {
+						return false
+					}
+				}
+			}
+		}
+		return any
+	}
+	return false
+}
+
 
 // baseIsDirectory traces every definition of a Rel base back to its leaves.
 func baseIsDirectory(c *Ctx, v ssa.Value, visited map[*ssa.Function]bool) (bool, string) {
